@@ -65,7 +65,10 @@ PROP_VALUES = [None, True, False, 3, 2.5, "s", 'q"t', "it's", ["LIST", [1, "a", 
                J("PropComp", [dep("comppropdep")], [("z", 1)]),
                ["XJ", Etag("u", [dep("xpropdep")])], ["LIST", []], {}, -1, 0, "",
                {'k"q': 1, "sp ace": "v"}, ["FLT", "inf"], ["FLT", "-inf"], ["FLT", "nan"], 1e21, -2.5e-7,
-               ["LIST", [["FLT", "inf"], {"n": ["FLT", "nan"]}]]]
+               ["LIST", [["FLT", "inf"], {"n": ["FLT", "nan"]}]],
+               ["SUBV", "ordereddict", {"z": 1, "a": "s"}], ["SUBV", "defaultdict", {"k": ["LIST", [1]]}],
+               ["SUBV", "namedtuple", [1, "b"]], ["SUBV", "listsub", [True, None]], ["SUBV", "intenum", None],
+               ["SUBV", "jsxsub", "window.other"], {"nested": ["SUBV", "namedtuple", [["SUBV", "intenum", None], 2]]}]
 
 
 # ------------------------------------------------------- expected expression tree
@@ -93,6 +96,16 @@ def expected_value(v):
             return ("arr", [expected_value(x) for x in v[1]])
         if k == "FLT":
             return ("nan",) if v[1] == "nan" else ("num", float(v[1]))
+        if k == "SUBV":
+            kind, payload = v[1], v[2]
+            if kind in ("ordereddict", "defaultdict"):
+                return ("obj", [(kk, expected_value(x)) for kk, x in payload.items()])
+            if kind in ("namedtuple", "listsub"):
+                return ("arr", [expected_value(x) for x in payload])
+            if kind == "intenum":
+                return ("num", 3.0)
+            if kind == "jsxsub":
+                return ("raw", payload)
         if k == "JX":
             return ("raw", v[1])
         if k in ("E", "ES", "J", "XJ"):
